@@ -93,6 +93,9 @@ impl ApplicationState {
     /// - If that's not enough, we prepend the singleton's crate name to the field name with a `_` separator
     /// - If there are still conflicts, we use the singleton's full path as the field name, replacing
     ///   all `::` with `_`
+    /// - If there are still conflicts (e.g. `Arc<Mutex<A>>` and `Arc<Mutex<B>>`), we append the full
+    ///   path of all generic arguments, recursively, and the length of arrays
+    /// - As a last resort, we number the conflicting fields in order of appearance
     fn assign_field_names(type2id: &IndexSet<(Type, ComponentId)>) -> BiHashMap<syn::Ident, Type> {
         let mut name_map = BiHashMap::new();
 
@@ -111,6 +114,7 @@ impl ApplicationState {
             NamingStrategy::LastSegmentWithGenericArgs,
             NamingStrategy::WithCrateName,
             NamingStrategy::FullPath,
+            NamingStrategy::FullPathWithGenericArgs,
         ];
         'outer: for fallback_strategy in &fallback_strategies {
             let ambiguous_entries: Vec<_> = candidate2positions
@@ -138,21 +142,21 @@ impl ApplicationState {
             }
         }
 
-        let still_ambiguous: Vec<usize> = candidate2positions
-            .values()
-            .filter(|v| v.len() > 1)
-            .flatten()
-            .cloned()
+        // Last resort: number the fields that are still ambiguous, in order of appearance.
+        let still_ambiguous: Vec<(String, Vec<usize>)> = candidate2positions
+            .iter()
+            .filter(|(_, v)| v.len() > 1)
+            .map(|(k, v)| (k.clone(), v.clone()))
             .collect();
-        if !still_ambiguous.is_empty() {
-            panic!(
-                "Failed to assign unique fields names to the singletons stored inside `ApplicationState`. \
-                I couldn't disambiguate the following types:\n{}",
-                still_ambiguous
-                    .into_iter()
-                    .map(|i| type2id.get_index(i).unwrap().0.display_for_error())
-                    .join("\n-")
-            );
+        for (name, positions) in still_ambiguous {
+            candidate2positions.remove(&name);
+            for (n, i) in positions.into_iter().enumerate() {
+                let mut candidate = format!("{name}_{n}");
+                while candidate2positions.contains_key(&candidate) {
+                    candidate.push('_');
+                }
+                candidate2positions.insert(candidate, vec![i]);
+            }
         }
 
         for (name, positions) in candidate2positions {
@@ -216,6 +220,7 @@ enum NamingStrategy {
     LastSegmentWithGenericArgs,
     WithCrateName,
     FullPath,
+    FullPathWithGenericArgs,
 }
 
 fn field_name_candidate(ty_: &Type, strategy: NamingStrategy) -> String {
@@ -269,6 +274,22 @@ fn _field_name_candidate(ty_: &Type, strategy: NamingStrategy, candidate: &mut S
                         .join("_"),
                 );
             }
+            NamingStrategy::FullPathWithGenericArgs => {
+                candidate.push_str(
+                    &path_type
+                        .base_type
+                        .iter()
+                        .map(|s| s.to_case(convert_case::Case::Snake))
+                        .join("_"),
+                );
+                for arg in &path_type.generic_arguments {
+                    let GenericArgument::TypeParameter(ty_) = arg else {
+                        continue;
+                    };
+                    candidate.push('_');
+                    _field_name_candidate(ty_, strategy, candidate);
+                }
+            }
         },
         Type::Reference(type_reference) => {
             // We never have both a reference and an owned version of the same
@@ -296,6 +317,10 @@ fn _field_name_candidate(ty_: &Type, strategy: NamingStrategy, candidate: &mut S
         Type::Array(array) => {
             // Same reasoning as for slices.
             _field_name_candidate(&array.element_type, strategy, candidate);
+            if let NamingStrategy::FullPathWithGenericArgs = strategy {
+                // Arrays of the same element type can only be told apart by their length.
+                candidate.push_str(&array.len.to_string());
+            }
         }
         Type::RawPointer(raw_pointer) => {
             if raw_pointer.is_mutable {
